@@ -30,7 +30,9 @@ RULE = ("grammar-directed over the public operators (IntVar/Expr +,-,*, reversed
         "arguments), hints in/out of domain/unknown name, solution_limit in {1,3,100}; every model is solved with "
         "solver=auto, dfs and sat; plus a routing family (operator sums over 2-8 all_different variables with domains up "
         "to 0..10, where a DFS run would not finish; judged by the verified evaluator on the returned and a planted "
-        "assignment, the back-end actually used is compared with the Cp.Choose mirror); non-trivial = >=1 constraint and >=2 variables with non-singleton domains; "
+        "assignment, the back-end actually used is compared with the Cp.Choose mirror) and a scaled-coefficient family "
+        "(k*x+-c ~ k*y+-d, k*(x-y) ~ c, k*x-k*y ~ c, x+x ~ y+y+c with k in {2,3,-2}, constants divisible or not, ==/!=, "
+        "alone or with x==y / x!=y / all_different); non-trivial = >=1 constraint and >=2 variables with non-singleton domains; "
         "distinct by (model, hints, limit, solver)")
 FN = "Model.solve"
 WEIGHTS = {"rel": 45, "simple": 18, "alldiff": 10, "sumeq": 5, "sumle": 4, "sumge": 4, "circuit": 5, "noov": 5, "cum": 4}
@@ -62,6 +64,17 @@ def gen_routing_cases(rng, n):
             if plant is not None:
                 c["plant"] = plant
             cases.append(c)
+    return cases
+
+
+def gen_scaled_cases(rng, n):
+    cases = []
+    for _ in range(n):
+        vars_, cons = K.gen_scaled(rng)
+        limit = rng.choice([1, 3, 100, 100])
+        for solver in ("auto", "dfs", "sat"):
+            cases.append({"vars": vars_, "cons": cons, "hints": None, "limit": limit, "solver": solver,
+                          "family": "scaled"})
     return cases
 
 
@@ -222,6 +235,8 @@ def run_cases(ctx, cases, attribute=True):
         st = out[1]["status"] if out[0] == "ok" else err_kind(out)
         ctx.count(f"status:{st}")
         ctx.count(f"solver:{case['solver']}->{path}")
+        if case.get("family") == "scaled":
+            ctx.count(f"scaled_family:{case['solver']}->{path}")
         if case.get("family") == "routing":
             ctx.count(f"routing_family:{case['solver']}->{path}" + (":big" if case.get("big") else ""))
         # R_trace on the chosen back-end: a SATEncoder was created iff the mirror routes to SAT
@@ -334,11 +349,23 @@ def _malformed(kind):
         b1 = m2.solve(solver="sat").solution
         b2 = m2.solve(solver="dfs", solution_limit=10)
         return a + ":" + str(b1 is not None) + ":" + str(len(b2.solutions or [b2.solution]))
+    if kind == "resolve_same_model_after_sat":
+        # observation (not judged: the property does not demand distinct CP solutions): the encoder leaves its
+        # auxiliary variables in model._vars, so a second solve of the SAME Model returns the same named
+        # assignment several times
+        zs = [m.int_var(0, 2, f"z{i}") for i in range(3)]
+        m.add(zs[0] + zs[1] + zs[2] == 4)
+        out = []
+        for solver in ("sat", "sat", "auto"):
+            r = m.solve(solver=solver, solution_limit=100)
+            sols = list(r.solutions) if r.solutions is not None else [r.solution]
+            out.append(f"{solver}:returned={len(sols)},distinct={len({tuple(sorted(x.items())) for x in sols})}")
+        return " ".join(out)
     raise KeyError(kind)
 
 
 def run_malformed(ctx):
-    kinds = ["unknown_solver", "no_overlap_lengths", "cumulative_lengths", "expr_minus_var", "int_minus_expr",
+    kinds = ["resolve_same_model_after_sat", "unknown_solver", "no_overlap_lengths", "cumulative_lengths", "expr_minus_var", "int_minus_expr",
              "expr_times_expr", "hint_unknown_and_out_of_domain", "solve_twice_sat_then_dfs"]
     outs = run_pool(_malformed, kinds, timeout=20.0)
     rec = ctx.cov.setdefault("malformed_stream", {})
@@ -356,6 +383,7 @@ def run(ctx, budget):
     for _ in range(5 * budget):
         run_cases(ctx, gen_cases(ctx.rng, 1000, big=(ctx.tier == "thorough")))
     run_cases(ctx, gen_routing_cases(ctx.rng, 60 * budget))
+    run_cases(ctx, gen_scaled_cases(ctx.rng, 400 * budget))
     summarise(ctx)
 
 
